@@ -86,8 +86,8 @@ def roundtrip_units():
                 oplen = 4 if src == 'arm' else None
                 named = []
                 for leaf, v0 in st0.items():
-                    if leaf.startswith('chg[') or leaf.startswith('cfg.') or leaf.startswith('cpu.'):
-                        continue
+                    if leaf.startswith('chg[') or leaf.startswith('cfg.') or leaf.startswith('cpu.') or leaf in step.SCRATCH:
+                        continue            # per-step scratch of the implementation, not architectural state
                     v2 = ite(te, kt.st[leaf], ka.st[leaf]) if kt.st[leaf] is not ka.st[leaf] else ka.st[leaf]
                     if leaf == 'R.PC':
                         continue
